@@ -34,17 +34,21 @@ def demo_pkg(src):
     return "."
 
 
+ROUND = ""
+
+
 def confirm(prop, m, extra_props):
-    out = "/tmp/seed/out-%s" % prop
+    out = "/tmp/seed/out%s-%s" % (ROUND, prop)
     patch = os.path.join(out, "%s.patch.diff" % m)
     demo = os.path.join(out, "%s_demo_test.go" % m)
     if not (os.path.exists(patch) and os.path.exists(demo)):
         return dict(id="%s-%s" % (prop, m), status="missing files")
-    wt = "/tmp/seedchk/%s-%s" % (prop, m)
+    mid = ("r%s" % ROUND if ROUND else "") + m
+    wt = "/tmp/seedchk/%s-%s" % (prop, mid)
     shutil.rmtree(wt, ignore_errors=True)
     sh("git -C /repo worktree prune")
     rc, o = sh("git -C /repo worktree add -q --detach %s HEAD" % wt)
-    meta = dict(id="%s-%s" % (prop, m), property=prop, description=open(os.path.join(out, m + ".md")).read() if os.path.exists(os.path.join(out, m + ".md")) else "",
+    meta = dict(id="%s-%s" % (prop, mid), property=prop, description=open(os.path.join(out, m + ".md")).read() if os.path.exists(os.path.join(out, m + ".md")) else "",
                 ran=[])
     try:
         src = open(demo).read()
@@ -99,7 +103,11 @@ def confirm(prop, m, extra_props):
 
 
 def main():
+    global ROUND
     args = sys.argv[1:]
+    if args and args[0] == "--round":
+        ROUND = args[1]
+        args = args[2:]
     extra = {}
     for a in args:
         prop, _, more = a.partition("+")
